@@ -128,17 +128,59 @@ func runFrames(res *lp.Result, prop string) {
 							m.Data = message.RowSet{message.Row{make([]byte, n)}}
 						}
 					}
+					huge := false
+					if i == 0 && (kind == "Query" || kind == "RowsResult" || kind == "Execute") {
+						// one content longer than 1 MiB (the decoder reads such contents piecewise)
+						n := 1<<20 + 1 + rng.Intn(70000)
+						switch m := f.Body.Message.(type) {
+						case *message.Query:
+							m.Query = strings.Repeat("q", n)
+							huge = true
+						case *message.RowsResult:
+							m.Metadata = &message.RowsMetadata{ColumnCount: 1}
+							m.Data = message.RowSet{message.Row{bytes.Repeat([]byte{7}, n)}}
+							huge = true
+						case *message.Execute:
+							if m.Options == nil {
+								m.Options = &message.QueryOptions{}
+							}
+							m.Options.NamedValues = nil
+							m.Options.PositionalValues = []*primitive.Value{primitive.NewValue(bytes.Repeat([]byte{9}, n))}
+							huge = true
+						}
+					}
 					if cs.comp != nil {
 						f.SetCompress(rng.Intn(4) != 0 || i >= per)
 					}
+					// the encoder must not read Header.BodyLength (it is documented as computed on encode): any value may be there
+					if rng.Intn(2) == 0 {
+						f.Header.BodyLength = []int32{1, 15, 72, -3, 1 << 20, int32(rng.Intn(300))}[rng.Intn(6)]
+					}
 					id := fmt.Sprintf("v=%d kind=%s comp=%s seed=%d i=%d", v, kind, cs.name, *seed, i)
 					orig := f.DeepCopy()
+					// history: the codec is used before — by an encode that fails part-way and by a decode of cut-off bytes; neither
+					// may leave anything behind that changes what follows
+					if rng.Intn(3) == 0 {
+						for _, bad := range failingFrames(v, cs.comp != nil) {
+							var sink bytes.Buffer
+							if err := encodeNoPanic(cs.codec, bad, &sink); err == nil {
+								res.Count("history/failing-encode-accepted")
+							} else {
+								res.Count("history/failing-encode")
+							}
+						}
+					}
 					var buf bytes.Buffer
 					if err := cs.codec.EncodeFrame(f, &buf); err != nil {
 						res.Add(lp.Finding{Kind: "violation", What: "version-valid frame refused by the encoder: " + err.Error(), Input: id + " " + show.Frame(orig)})
 						continue
 					}
 					enc := append([]byte{}, buf.Bytes()...)
+					if rng.Intn(3) == 0 && len(enc) > 2 {
+						if _, err := cs.codec.DecodeFrame(bytes.NewReader(enc[:len(enc)-1-rng.Intn(len(enc)-1)])); err != nil {
+							res.Count("history/failing-decode")
+						}
+					}
 					trailer := rng.Bytes(rng.Intn(6))
 					all := append(append([]byte{}, enc...), trailer...)
 					rd := bytes.NewReader(all)
@@ -159,7 +201,7 @@ func runFrames(res *lp.Result, prop string) {
 						}
 					}
 					if err != nil {
-						res.Add(lp.Finding{Kind: "violation", What: "encoded frame does not decode: " + err.Error(), Input: id + " bytes=" + hx(enc)})
+						res.Add(lp.Finding{Kind: "violation", What: "encoded frame does not decode: " + err.Error(), Input: id + " bytes=" + hxIn(enc)})
 						ask("frame dec "+flagOf(cs)+" "+hx(all), "err", id)
 						continue
 					}
@@ -167,19 +209,27 @@ func runFrames(res *lp.Result, prop string) {
 						want, got := show.Frame(show.Normalize(orig)), show.Frame(show.Normalize(dec))
 						if want != got {
 							res.Add(lp.Finding{Kind: "violation", What: "decode(encode(frame)) differs from the frame (" + kind + ", v" + fmt.Sprint(v) + ", " + cs.name + ")",
-								Input: id + " bytes=" + hx(enc), Impl: got, Model: want})
+								Input: id + " bytes=" + hxIn(enc), Impl: got, Model: want})
 						}
 					}
 					if rd.Len() != len(trailer) {
 						res.Add(lp.Finding{Kind: "violation", What: fmt.Sprintf("decoder consumed %d bytes of a %d-byte frame", len(all)-rd.Len(), len(enc)),
-							Input: id + " bytes=" + hx(enc)})
+							Input: id + " bytes=" + hxIn(enc)})
 					}
 					if prop == "C03" {
 						// back to back over a source that delivers a few bytes per Read: both decoders must stop exactly at the frame's end
 						two := append(append([]byte{}, enc...), enc...)
-						for _, path := range []string{"DecodeFrame", "DecodeRawFrame"} {
-							br := bytes.NewReader(two)
-							src := &chunkedReader{r: br, n: 1 + rng.Intn(24)}
+						for pi, path := range []string{"DecodeFrame", "DecodeRawFrame", "DecodeFrame", "DecodeRawFrame"} {
+							// a source delivering a few bytes per Read, and a *bytes.Buffer holding both frames
+							var br interface{ Len() int }
+							var src io.Reader
+							if pi < 2 {
+								r := bytes.NewReader(two)
+								br, src = r, &chunkedReader{r: r, n: 1 + rng.Intn(24)}
+							} else {
+								b := bytes.NewBuffer(append([]byte{}, two...))
+								br, src = b, b
+							}
 							var e1, e2 error
 							if path == "DecodeFrame" {
 								_, e1 = cs.codec.DecodeFrame(src)
@@ -193,14 +243,14 @@ func runFrames(res *lp.Result, prop string) {
 								_, e2 = cs.codec.DecodeRawFrame(src)
 							}
 							if e1 != nil || used != len(enc) || e2 != nil || br.Len() != 0 {
-								res.Add(lp.Finding{Kind: "violation", What: path + " over a source delivering a few bytes per Read does not consume exactly the frame",
-									Input: id + " bytes=" + hx(enc), Impl: fmt.Sprintf("first: err=%v consumed %d of %d; second: err=%v, %d bytes left", e1, used, len(enc), e2, br.Len())})
+								res.Add(lp.Finding{Kind: "violation", What: path + " over " + []string{"a source delivering a few bytes per Read", "a *bytes.Buffer holding two frames"}[pi/2] + " does not consume exactly the frame",
+									Input: id + " bytes=" + hxIn(enc), Impl: fmt.Sprintf("first: err=%v consumed %d of %d; second: err=%v, %d bytes left", e1, used, len(enc), e2, br.Len())})
 							}
 						}
 						declared := int(dec.Header.BodyLength)
 						if declared != len(enc)-headerLen(v) {
 							res.Add(lp.Finding{Kind: "violation", What: fmt.Sprintf("header declares %d body bytes, %d were emitted", declared, len(enc)-headerLen(v)),
-								Input: id + " bytes=" + hx(enc)})
+								Input: id + " bytes=" + hxIn(enc)})
 						}
 						mc := msgCodecs[orig.Body.Message.GetOpCode()]
 						var mb bytes.Buffer
@@ -214,6 +264,10 @@ func runFrames(res *lp.Result, prop string) {
 							stream.Write(enc)
 							streamTexts = append(streamTexts, show.Frame(dec))
 						}
+					}
+					if huge {
+						res.Count("content-over-1MiB")
+						continue // implementation oracles only: megabyte lines are not sent to the model
 					}
 					// correspondence with the model
 					if cs.comp != nil && dec.Header.Flags.Contains(primitive.HeaderFlagCompressed) {
@@ -277,6 +331,9 @@ func runFrames(res *lp.Result, prop string) {
 		}
 		res.Count("stream/frames")
 	}
+	if prop == "C03" {
+		vintChecks(res, rng, ask)
+	}
 	answers, err := lp.Ask(*driverPath, lines)
 	if err != nil {
 		res.Add(lp.Finding{Kind: "disagreement", What: "driver failure: " + err.Error()})
@@ -297,4 +354,40 @@ func flagOf(cs compSetting) string {
 		return "none"
 	}
 	return "z"
+}
+
+// failingFrames returns frames whose encoding fails after part of the body has been produced.
+func failingFrames(v primitive.ProtocolVersion, compress bool) []*frame.Frame {
+	mk := func(m message.Message) *frame.Frame {
+		f := frame.NewFrame(v, 1, m)
+		f.SetCompress(compress)
+		return f
+	}
+	return []*frame.Frame{
+		// a BATCH whose second child has neither a query string nor a prepared id
+		mk(&message.Batch{Type: primitive.BatchTypeLogged, Children: []*message.BatchChild{
+			{Query: "INSERT INTO history_marker_table (k) VALUES (0123456789)"}, {}}, Consistency: primitive.ConsistencyLevelOne}),
+		// a QUERY whose second bound value has a type no version defines
+		mk(&message.Query{Query: "SELECT history_marker FROM t", Options: &message.QueryOptions{PositionalValues: []*primitive.Value{
+			primitive.NewValue([]byte("history_marker_value")), {Type: primitive.ValueType(99)}}}}),
+		// an EXECUTE without a prepared id
+		mk(&message.Execute{Options: &message.QueryOptions{}}),
+	}
+}
+
+func encodeNoPanic(c frame.RawCodec, f *frame.Frame, w io.Writer) (err error) {
+	defer func() {
+		if r := recover(); r != nil {
+			err = fmt.Errorf("panic: %v", r)
+		}
+	}()
+	return c.EncodeFrame(f, w)
+}
+
+// hxIn renders bytes for a finding's input; megabyte frames are cut (they are regenerated from the seed and the id)
+func hxIn(b []byte) string {
+	if len(b) > 1<<16 {
+		return fmt.Sprintf("%s…(%d bytes in all, regenerate from the seed)", hx(b[:96]), len(b))
+	}
+	return hx(b)
 }
